@@ -167,11 +167,16 @@ func Harness_C06_attributes() {
 	if n > 0 {
 		acs := AttributeConsumingService{}
 		for i := 0; i < n; i++ {
-			acs.RequestedAttributes = append(acs.RequestedAttributes, RequestedAttribute{Attribute: Attribute{
+			ra := RequestedAttribute{Attribute: Attribute{
 				Name:         names[verifChoose("requested."+strconv.Itoa(i)+".name", len(names))],
 				FriendlyName: verifNondetString("requested." + strconv.Itoa(i) + ".friendly"),
 				NameFormat:   "urn:oasis:names:tc:SAML:2.0:attrname-format:basic",
-			}})
+			}}
+			// the registered metadata may list values on a requested attribute (saml-metadata 2.4.4.2): they are the SP's, not the user's
+			if verifChoose("requested."+strconv.Itoa(i)+".hasvalue", 2) == 1 {
+				ra.Values = []AttributeValue{{Type: "xs:string", Value: verifNondetString("requested." + strconv.Itoa(i) + ".mdvalue")}}
+			}
+			acs.RequestedAttributes = append(acs.RequestedAttributes, ra)
 		}
 		r.req.SPSSODescriptor.AttributeConsumingServices = []AttributeConsumingService{acs}
 	}
